@@ -27,7 +27,8 @@ GKDI_PORT = 49667
 #   hs: 0/1 header-sign flag; tok: "tok" | "none" | "empty"
 # terminal elements: ["nak"], ["fault"], ["response"], ["request"], ["eof"], ["clear_response"]
 RESULT_CODE = {"A": 0, "U": 1, "P": 2, "N": 3}
-TERMINALS = (["nak"], ["fault"], ["response"], ["request"], ["eof"], ["fault", 0x20], ["fault", 0x23 | 0x40])  # fault with PFC_DID_NOT_EXECUTE / PFC_MAYBE
+TERMINALS = (["nak"], ["fault"], ["response"], ["request"], ["eof"], ["fault", 0x20], ["fault", 0x23 | 0x40],  # fault with PFC_DID_NOT_EXECUTE / PFC_MAYBE
+             ["nak-cid", 0], ["nak-cid", 2], ["fault-cid", 0], ["fault-cid", 7])  # rejections whose call_id is not the one the client used
 
 
 def _ack_bytes(el, position_kind: int, tok_index: int, auth_type: int) -> bytes:
@@ -78,6 +79,12 @@ class HandshakePeer(peers.PduPeer):
         elif kind == "nak":
             self.sent.append(("nak", el, None))
             conn.peer_send(rpce.build_bind_nak(reason=2))
+        elif kind == "nak-cid":
+            self.sent.append(("nak", el, None))
+            conn.peer_send(rpce.build_bind_nak(reason=2, call_id=el[1]))
+        elif kind == "fault-cid":
+            self.sent.append(("fault", el, None))
+            conn.peer_send(rpce.build_fault(0x00000005, call_id=el[1]))
         elif kind == "fault":
             self.sent.append(("fault", el, None))
             conn.peer_send(rpce.build_fault(0x00000005, flags=(el[1] | 3) if len(el) > 1 else 3))
